@@ -1,13 +1,7 @@
 #![allow(dead_code)]
-mod checks;
-mod client_run;
-mod gen;
-mod handlers;
-mod io;
-mod server_run;
-mod util;
 
-use checks::server_props::Which;
+use vsim::checks::server_props::Which;
+use vsim::{checks, util};
 use vcommon::report::{parse_args, EXIT_INCONCLUSIVE};
 
 fn main() {
